@@ -103,7 +103,9 @@ BeginChunk ==
   /\ LET rg == Head(todo)
          vals == NonNullVals(rg)
          \* categorical statistics are taken over the labels present; NaN/NaT are skipped by max()/min()
-         mm == WantStats(inp) /\ vals # {} /\ inp.cls.ordered
+         \* an object column holding None cannot be compared by max()/min(): the statistics are silently dropped
+         mm == /\ WantStats(inp) /\ vals # {} /\ inp.cls.ordered
+               /\ ~(inp.cls.dtypeO /\ \E i \in Rows(rg) : Cell(inp, i) = NULL)
      IN cur' = [start |-> rg.start, len |-> rg.len, optional |-> Optional(inp), dict |-> inp.cls.cat,
                 pages |-> <<>>, next |-> rg.start,
                 hasmm |-> mm, min |-> IF mm THEN Min(vals) ELSE NULL, max |-> IF mm THEN Max(vals) ELSE NULL,
